@@ -44,6 +44,9 @@ def mk(rng, kind, n, keys, tier):
     c = dict(kind=kind, n=n, keys=list(keys), idx=idx, ncols=rng.pick([1, 1, 2]),
              kenc=(rng.pick(["f64", "str", "M8", "cat"]) if NULL in keys else rng.pick(["f64", "i64", "str", "cat"])),
              vdtype=rng.pick(["float64", "int64", "float32"]), kcont=rng.pick(["series", "np"]))
+    if rng.random() < 0.3:
+        # keep_input_index=False: rows listed group by group (label order; first appearance when sort=False)
+        c["keep"], c["sort"] = 0, (0 if rng.random() < 0.3 and c["kenc"] != "cat" else 1)
     if m >= 4 and rng.random() < 0.3 and not (c["kenc"] == "str" and keys[0] == NULL):
         # (string keys with a leading null on the chunk-wise route fail in the constructor: known finding of C02)
         c["T"] = rng.pick([2, 4])
